@@ -58,3 +58,13 @@ claim("C03",
       note="Same assumed contracts as C02. PiecewiseRegressor/Classifier.fit and DecisionTreeLogisticRegression.fit are covered by the bounded stand-in only "
            "for this property.",
       technique="deductive verification: stale-state frame conditions + RNG provenance tags on the symbolic trace, z3")
+claim("C15",
+      text="Proof: SkBaseTransformLearner binds the wrapped model's own method (or the callable), refuses unknown names; transform makes exactly one call of that "
+           "method on X and returns its values as a 2-D array; fit is exactly one model.fit(X, y, **kwargs) and returns self; SkBaseTransformStacking wraps "
+           "learners with the requested method, keeps transformers, transform is the ordered column concatenation (1-3 members), fit fits each member once; "
+           "TransferTransformer.transform is the fitted copy's chosen method; fit: a distinct fitted copy under copy_estimator, no fit reaches any estimator "
+           "unless trainable, the original is never fitted under copy_estimator, trainable fits the copy with the arguments its fit accepts (every exit path). "
+           "Bounded: 6 real models x methods x options, exact comparison with direct use.",
+      note="Estimator protocol and clone_with_fitted_parameters are assumed contracts. Known finding: copy_estimator=True rejects models whose fitted state has "
+           "no value equality (trees, KNN) in assert_estimator_equal.",
+      technique="deductive verification: Trace clauses on the symbolic call trace + row-wise output postconditions, z3")
